@@ -568,6 +568,10 @@ class Ctx:
 
     def event(self, *e):
         self.log.append(tuple(e))
+        if e and e[0] == "for_each_in_order" and len(e) >= 4 and e[3]:
+            # the early exits of the generic iteration are exits of the FUNCTION too (for some element, in order): a unit that compares
+            # only the exit list must see them.  Same rule on the code side (e_for) and the contract side (contracts call event()).
+            self.exits.append(("for_some_element", e[1], tuple(e[3])))
 
     def fresh_sym(self, base):
         self.fresh += 1
@@ -3256,6 +3260,40 @@ def _memo_obligations(unit):
     return obs
 
 
+# How the exit list of a unit is compared.  "exact": code and contract have the same exits in the same order.  "no_missing_rejection" (set by
+# the runner for a property that only demands that malformed input is REJECTED and nothing panics, C17): additional error returns of the
+# code are allowed - a stricter decoder still satisfies such a property - but every exit of the contract must be present, in order, and no
+# additional exit may be a panic.
+EXITS_MODE = "exact"
+
+
+def _drop_extra_rejections(a, b, seed):
+    def pure_rejection(e_):
+        if not (isinstance(e_, tuple) and e_):
+            return False
+        if e_[0] in ("err_if", "try"):
+            return True
+        if e_[0] == "for_some_element" and len(e_) == 3:
+            return all(pure_rejection(x) for x in e_[2])
+        return False
+    kept, j = [], 0
+    for e_ in a:
+        same = False
+        if j < len(b):
+            try:
+                same = compare(e_, b[j], seed)[0]
+            except Exception:
+                same = False
+        if same:
+            kept.append(e_)
+            j += 1
+        elif pure_rejection(e_):
+            continue                    # an additional error return
+        else:
+            return a                    # something else than a rejection was added: compared exactly
+    return kept if j == len(b) else a
+
+
 def run_unit(root, unit, contracts, seed=0, perturb=None):
     """see _run_unit; memo-cache findings are definite on their own: they are reported even when the symbolic run leaves the fragment"""
     del _MEMO_FOUND[:]
@@ -3410,6 +3448,8 @@ def _run_unit(root, unit, contracts, seed=0, perturb=None):
             a, b = out1[k], out2[k]
             if pcs:
                 a, b = _resolve_ite(a, pcs), _resolve_ite(b, pcs)
+            if k == "exits" and EXITS_MODE == "no_missing_rejection" and not perturb and isinstance(a, list) and isinstance(b, list) and len(a) > len(b):
+                a = _drop_extra_rejections(a, b, seed)
             ok, detail, cex = compare(a, b, seed)
             und = False
             if not ok and (_havoc_names(a) - _havoc_names(b)) and _shape(a) == _shape(b):
@@ -3450,6 +3490,12 @@ def _run_unit(root, unit, contracts, seed=0, perturb=None):
                         if poly_diff and _is_inequality(c, _t):
                             continue      # an inequality leaves a Zariski-open set: a non-zero polynomial cannot vanish on all of it
                         cv_ |= _value_vars(c)
+                    if isinstance(la, VOpaque) and isinstance(lb, VOpaque) and (la.name != lb.name or len(la.args) != len(lb.args)):
+                        # two different uninterpreted terms (`affine(u(p), v(p))` vs `to_affine(p)`): whether they denote the same value can
+                        # depend on ANYTHING the path says about their arguments, also on equalities that were applied as rewrites (the
+                        # rewrite does not carry the meaning of the functions).  Definite only if the path is silent about them.
+                        for c, _t in pcs:
+                            cv_ |= _value_vars(c)
                     if _shape(a) != _shape(b) or la is _STRUCT:
                         und = False      # the SEQUENCE / structure of operations differs on this path
                     elif dv is None or (dv & cv_):
@@ -3639,7 +3685,7 @@ def _first_diff(a, b):
     pairs = None
     if isinstance(a, VOpaque) and isinstance(b, VOpaque):
         if a.name != b.name or len(a.args) != len(b.args):
-            return _STRUCT, _STRUCT
+            return a, b         # two different UNINTERPRETED terms (see the caller: equal or not depends on what the path says about their arguments)
         pairs = zip(a.args, b.args)
     elif isinstance(a, (VArr, VIter, VTuple)) and isinstance(b, (VArr, VIter, VTuple)):
         if len(a.items) != len(b.items):
